@@ -22,56 +22,58 @@ pub fn phases(prop: &str, tier: Tier) -> Vec<Phase> {
         "C08" => vec![
             Phase { name: if q { "pair-sweep4" } else { "pair-sweep5" }, units: 13, seeded: false },
             Phase { name: "pair-large", units: 3, seeded: false },
-            Phase { name: "pair-seeded", units: if q { 200 } else { 20_000 }, seeded: true },
+            Phase { name: "pair-seeded", units: if q { 600 } else { 100_000 }, seeded: true },
         ],
-        "C15" => vec![Phase { name: if q { "c15-sweep4" } else { "c15-sweep5" }, units: crate::fam_histr::SWEEP_UNITS, seeded: false }],
+        "C15" => vec![Phase { name: if q { "c15-sweep4" } else { "c15-sweep6" }, units: crate::fam_histr::SWEEP_UNITS, seeded: false }],
         "C03" => vec![
             Phase { name: "c03-sweep", units: 14, seeded: false },
-            Phase { name: "foreign-seeded", units: if q { 400 } else { 40_000 }, seeded: true },
+            Phase { name: "foreign-large", units: 3, seeded: false },
+            Phase { name: "foreign-seeded", units: if q { 1500 } else { 200_000 }, seeded: true },
         ],
         "C14" => vec![
             Phase { name: "c14-sweep", units: 13, seeded: false },
-            Phase { name: "foreign-seeded", units: if q { 400 } else { 40_000 }, seeded: true },
+            Phase { name: "foreign-large", units: 3, seeded: false },
+            Phase { name: "foreign-seeded", units: if q { 1500 } else { 200_000 }, seeded: true },
         ],
         "C06" => vec![
             Phase { name: "rt-grid", units: 13, seeded: false },
-            Phase { name: "rt-seeded", units: if q { 300 } else { 30_000 }, seeded: true },
+            Phase { name: "rt-seeded", units: if q { 1000 } else { 100_000 }, seeded: true },
             Phase { name: "c03-sweep", units: 14, seeded: false },
-            Phase { name: "foreign-seeded", units: if q { 150 } else { 15_000 }, seeded: true },
+            Phase { name: "foreign-seeded", units: if q { 500 } else { 60_000 }, seeded: true },
         ],
         "C01" | "C02" | "C04" | "C18" => vec![
             Phase { name: "rt-grid", units: 13, seeded: false },
             Phase { name: "rt-large", units: 3, seeded: false },
-            Phase { name: "rt-seeded", units: if q { 400 } else { 40_000 }, seeded: true },
+            Phase { name: "rt-seeded", units: if q { 1500 } else { 150_000 }, seeded: true },
         ],
         "C05" => vec![
             Phase { name: "rt-grid", units: 13, seeded: false },
-            Phase { name: "rt-seeded", units: if q { 300 } else { 30_000 }, seeded: true },
-            Phase { name: "hw-seeded", units: if q { 200 } else { 20_000 }, seeded: true },
+            Phase { name: "rt-seeded", units: if q { 1000 } else { 100_000 }, seeded: true },
+            Phase { name: "hw-seeded", units: if q { 800 } else { 80_000 }, seeded: true },
         ],
         "C09" => vec![
             Phase { name: if q { "c09-sweep4" } else { "c09-sweep6" }, units: 78, seeded: false },
-            Phase { name: "hw-seeded", units: if q { 300 } else { 30_000 }, seeded: true },
+            Phase { name: "hw-seeded", units: if q { 1000 } else { 150_000 }, seeded: true },
         ],
         "C10" => vec![
             Phase { name: if q { "c10-sweep3" } else { "c10-sweep5" }, units: 13, seeded: false },
-            Phase { name: "hw-seeded", units: if q { 300 } else { 30_000 }, seeded: true },
+            Phase { name: "hw-seeded", units: if q { 1000 } else { 150_000 }, seeded: true },
             Phase { name: if q { "pair-sweep3" } else { "pair-sweep5" }, units: 13, seeded: false },
-            Phase { name: "pair-seeded", units: if q { 100 } else { 10_000 }, seeded: true },
+            Phase { name: "pair-seeded", units: if q { 300 } else { 40_000 }, seeded: true },
         ],
-        "C11" => vec![Phase { name: if q { "crash-sampled" } else { "crash-full" }, units: if q { 160 } else { 4000 }, seeded: true }],
-        "C12" => vec![Phase { name: "wfault", units: if q { 320 } else { 16_000 }, seeded: true }],
+        "C11" => vec![Phase { name: if q { "crash-sampled" } else { "crash-full" }, units: if q { 320 } else { 4000 }, seeded: true }],
+        "C12" => vec![Phase { name: "wfault", units: if q { 640 } else { 150_000 }, seeded: true }],
         "C07" => vec![
             Phase { name: "ladder", units: 14, seeded: false },
-            Phase { name: "corrupt", units: if q { 96 } else { 9_600 }, seeded: true },
+            Phase { name: "corrupt", units: if q { 192 } else { 40_000 }, seeded: true },
         ],
         "C17" => vec![
             Phase { name: "ladder", units: 14, seeded: false },
-            Phase { name: "corrupt", units: if q { 64 } else { 6_400 }, seeded: true },
+            Phase { name: "corrupt", units: if q { 128 } else { 30_000 }, seeded: true },
         ],
         "C13" => vec![
             Phase { name: "rfault-large", units: 8, seeded: false },
-            Phase { name: "rfault", units: if q { 160 } else { 8_000 }, seeded: true },
+            Phase { name: "rfault", units: if q { 320 } else { 40_000 }, seeded: true },
         ],
         _ => vec![],
     }
@@ -116,7 +118,9 @@ pub fn run_unit(prop: &str, phase: &str, unit: u64, seed: u64, _tier: Tier, ctx:
         }
         "c15-sweep4" => crate::fam_histr::sweep_unit(unit, 4, ctx, ctl),
         "c15-sweep5" => crate::fam_histr::sweep_unit(unit, 5, ctx, ctl),
+        "c15-sweep6" => crate::fam_histr::sweep_unit(unit, 6, ctx, ctl),
         "c03-sweep" => crate::fam_foreign::c03_sweep_unit(unit, ctx, ctl),
+        "foreign-large" => crate::fam_foreign::large_unit(unit, ctx, ctl),
         "c14-sweep" => crate::fam_foreign::c14_sweep_unit(unit, ctx, ctl),
         "foreign-seeded" => {
             for j in 0..RT_BATCH {
@@ -200,7 +204,7 @@ pub fn meta(prop: &str) -> PropMeta {
         },
         "C15" => PropMeta {
             level: "exploration",
-            rule: "all call sequences up to length 4 (quick) / 5 (thorough) over the 13-letter alphabet {iterate 0/1/2/all items, read_nth_shape(0..=3), seek(0..=3), shape_count} on files of n=3 records, for 10 configurations: {ShapeReader with index, ShapeReader without index, complete Reader with rows carrying their index} x {records of pairwise different sizes, records of equal size}, plus 4 configurations (ShapeReader with index, complete Reader) on files re-laid out so that the physical order differs from the index order (reversed with filler; rotated with filler that looks like a record header), enumerated completely (13 + 13^2 + 13^3 + 13^4 histories per configuration in the quick tier). distinct = distinct (configuration, history) pairs; evaluations = histories executed; logical_steps = reader calls.",
+            rule: "all call sequences up to length 4 (quick) / 6 (thorough) over the 13-letter alphabet {iterate 0/1/2/all items, read_nth_shape(0..=3), seek(0..=3), shape_count} on files of n=3 records, for 10 configurations: {ShapeReader with index, ShapeReader without index, complete Reader with rows carrying their index} x {records of pairwise different sizes, records of equal size}, plus 4 configurations (ShapeReader with index, complete Reader) on files re-laid out so that the physical order differs from the index order (reversed with filler; rotated with filler that looks like a record header), enumerated completely (13 + 13^2 + 13^3 + 13^4 histories per configuration in the quick tier). distinct = distinct (configuration, history) pairs; evaluations = histories executed; logical_steps = reader calls.",
             explanation: "Each history runs on the real reader over in-memory sources; every call's result is checked against a nondeterministic reference model whose state is the set of allowed positions of the next record: fresh / after random access = {0}, after seek(k) = {min(k,n)}, after an iteration that took items from p = {p+taken, 0}. Rows of the complete Reader must carry the index of their shape.",
             exhaustive: true,
         },
